@@ -165,6 +165,37 @@ def check_dedup(ctx, rep, rule):
     through Object::eq (words stripped of their tag must never decide equality)"""
     F = ctx.facts()
     clos = [f for f in F.all_fns if f.path.startswith('compiler::Compiler::add_constant::{closure')]
+    if len(clos) == 0:
+        # no search closure: the pool is scanned by a loop in add_constant itself.  Every path that returns an existing index
+        # (returns without pushing) must have taken the `tags equal` and the `Object::eq` branches as true
+        ac = F.fn('compiler::Compiler::add_constant')
+        from rules.shared import truth, deref
+        n = 0
+        for p in AbsInt(F, ac, max_paths=4000).run():
+            if p.exit != 'return' or any(c[1].endswith('Vec::<T, A>::push') for c in p.calls):
+                continue
+            r0 = simp(p.env.get('_0'))
+            if r0 and r0[0] == 'errof':
+                continue
+            n += 1
+            tag_eq = obj_eq = False
+            for c in p.constraints:
+                if c[0][0] != 'switch':
+                    continue
+                v = c[0][1]
+                if v[0] == 'call' and 'PartialEq' in v[1] and len(v[2]) == 2:
+                    equal = truth(c) != v[1].endswith('ne')
+                    a0, a1 = [deref(p.env, deref(p.env, a)) for a in v[2]]
+                    if a0[0] == 'call' and a0[1] == 'object::Object::tag' and a1[0] == 'call' and a1[1] == 'object::Object::tag' and equal:
+                        tag_eq = True
+                    elif equal and ('object::Object' in v[1] or 'PartialEq<&B> for &A' in v[1] or v[1].startswith('<&A as')) and ('local', 2) in (uncast(a0), uncast(a1)):
+                        obj_eq = True
+            rep.ob(tag_eq and obj_eq, rule, 'compiler::Compiler::add_constant', 'dedup predicate path %d' % n,
+                   'a path that returns an existing constant compared both tags (%s) and then Object::eq (%s)' % (tag_eq, obj_eq), ac.loc())
+        rep.count('dedup_true_paths', n)
+        if n == 0:
+            rep.bad(rule, 'compiler::Compiler::add_constant', 'dedup predicate', 'no path of add_constant returns an existing constant and no search closure was found', 'src/compiler.rs')
+        return
     if len(clos) != 1:
         rep.bad(rule, 'compiler::Compiler::add_constant', 'dedup predicate', 'expected one predicate closure, found %d' % len(clos), 'src/compiler.rs')
         return
